@@ -73,6 +73,9 @@ def dw_op_jmp(obj, offset):
 @ispec("16>[ {15} offset(8) ]", mnemonic="DW_OP_pick")
 @ispec("16>[ {94} offset(8) ]", mnemonic="DW_OP_deref_size")
 def dw_op_1(obj, offset):
+    if obj.mnemonic == "DW_OP_deref_size" and not (0 < offset <= WORD // 8):
+        # the size must be at least 1 and at most the size of a stack entry
+        raise InstructionError(obj)
     obj.operands = [env.cst(offset, 8)]
     obj.type = type_data_processing
 
